@@ -107,7 +107,9 @@ class AdapterModel:
                               and re.search(r"core::ops::(FnMut::call_mut|FnOnce::call_once|Fn::call)$", fn["def"])}
         # `?` branch calls: map branch-call block -> (dest, source dest)
         self.branches = {}
+        self.branch_calls = set()
         for bb, t, fn in direct_sites(b, r"core::ops::Try::branch$|as core::ops::Try>::branch$"):
+            self.branch_calls.add(bb)
             src = fl.operand_expr(t["args"][0])
             if src[0] == "call":
                 self.branches[bb] = (place_str(t["dest"]), src[3])
@@ -238,6 +240,23 @@ class AdapterModel:
             if bb in self.up_sites:
                 dest = place_str(self.up_sites[bb]["dest"])
                 out = None
+                # a `?` applied further along THIS path to a local that holds this poll's result (moved through plain
+                # assignments, e.g. out of an inlined helper): associate that branch call with this poll
+                holders = {self.up_sites[bb]["dest"]["l"]} if not self.up_sites[bb]["dest"]["p"] else set()
+                for j in range(i, window_end(i)):
+                    pb_ = path[j]
+                    for s_ in b.stmts(pb_) if j > i else []:
+                        if s_["k"] == "assign" and not s_["place"]["p"]:
+                            rv_ = s_["rv"]
+                            if rv_["k"] == "use" and rv_["op"]["k"] in ("move", "copy") and not rv_["op"]["place"]["p"] and rv_["op"]["place"]["l"] in holders:
+                                holders.add(s_["place"]["l"])
+                            else:
+                                holders.discard(s_["place"]["l"])
+                    if j > i and pb_ in self.branch_calls:
+                        bt_ = b.term(pb_)
+                        a0 = bt_["args"][0]
+                        if a0["k"] in ("move", "copy") and not a0["place"]["p"] and a0["place"]["l"] in holders:
+                            self.branches.setdefault(pb_, (place_str(bt_["dest"]), bb))
                 # through `?`
                 for brb, (bdest, srcbb) in self.branches.items():
                     if srcbb == bb and brb in path[i:]:
@@ -340,12 +359,42 @@ class AdapterModel:
         return "?"
 
     def all_event_paths(self, loop_visits=2):
+        cache = getattr(self, "_aep", None)
+        if cache is None:
+            cache = self._aep = {}
+        if loop_visits in cache:
+            return cache[loop_visits]
         res = []
         for kind, path, know in sensitive_paths(self.b, self.fl, loop_visits):
             if kind != "return":
                 continue
             res.append((path, self.events(path, know)))
+        cache[loop_visits] = res
         return res
+
+    def path_exprs(self, site_bb, operand, loop_visits=3, limit=400):
+        """The distinct expressions `operand` (an operand of the terminator / a statement of block site_bb) evaluates to on
+        the feasible return paths through site_bb, each local resolved to its latest definition ON THAT PATH (PathEval): a
+        value that reaches the site through a join (e.g. the result of an inlined helper with an early return) is seen as
+        what it is on each path."""
+        from lib_flow import PathEval
+        out = []
+        seen_prefix = set()
+        for path, ev in self.all_event_paths(loop_visits):
+            if site_bb not in path:
+                continue
+            i = path.index(site_bb)
+            key = tuple(path[:i + 1])
+            if key in seen_prefix:
+                continue
+            seen_prefix.add(key)
+            if len(seen_prefix) > limit:
+                break
+            pe = PathEval(self.b, list(key))
+            e = pe.operand_expr(operand)
+            if e not in out:
+                out.append(e)
+        return out
 
 
 def simulate(ev, cap_ge_1=True):
